@@ -24,6 +24,10 @@ func init() {
 			{"C17/decision", "matchAuth accepts iff (caps==0 && cl==0) || caps&cl!=0 and returns exactly the enabled bits, for all settings and all valuations", c17Decision},
 			{"C17/caps-bits", "HTTP_EXTENDED_AUTH_SC = 0x1, HTTP_EXTENDED_AUTH_PAA = 0x2 as in MS-TSGU", c17CapsBits},
 			{"C17/echo", "success: response carries the client's version bytes and matchAuth's caps from the same packet; mismatch: 0x800759E9 and the tunnel ends", c17Echo},
+			{"C17/caps-wiring", "the switches matchAuth reads are the configured ones: Gateway.TokenAuth = conf.Caps.TokenAuth, Gateway.SmartCardAuth = conf.Caps.SmartCardAuth", func(c *Ctx) {
+				c16PolicyWiringAs(c, "C17/caps-wiring", map[string]bool{"TokenAuth": true, "SmartCardAuth": true})
+			}},
+			{"C17/stream-ends", "when the packet loop ends (capability mismatch included) the client-facing connections are closed on every exit (C11's transport rule)", func(c *Ctx) { c11ClientTransportsAs(c, "C17/stream-ends") }},
 			{"C17/request-layout", "handshakeRequest reads u8,u8,u16,u16 little-endian into major, minor, version, extAuth", c17RequestLayout},
 		},
 	})
